@@ -81,7 +81,7 @@ let show_ws (evs : ws_ev list) : string * bool =
     match e with
     | WConnected -> Some "C"
     | WMsg p ->
-        if List.length p > 2 && List.for_all (fun b -> int_of_z b >= 0) p then
+        if List.length p >= 2 && List.for_all (fun b -> int_of_z b >= 0) p then
           (match parse WS p with Some m -> Some ("M:" ^ dump_msg m) | None -> None)
         else if List.exists (fun b -> int_of_z b < 0) p then Some "M:UNDEF"
         else None
@@ -103,6 +103,31 @@ let ws_gen mk fx toks =
       Printf.sprintf "obs=%s closed=%d" o (if cl then 1 else 0)
   | _ -> failwith "ws args"
 
+(* wsdec <s|c> <write>,<write>,... : every write of a server (s) / client (c) session after the
+   handshake must be exactly one well-formed WebSocket frame for the peer's reader: decoded with
+   the reader model that the theorems show equivalent to the specification automaton (buffer size
+   lifted), payload parsed as a CoAP message *)
+let wsdec toks =
+  match toks with
+  | [role; ws] ->
+      let base = if role = "s" then ws_client_cfg ws_fixed else ws_server_cfg ws_fixed in
+      let c = { base with wsc_rxbuf = z_of_int 100000000 } in
+      let hs = if role = "s" then ws_response else ws_request in
+      let one w =
+        let bs = bytes_of_tok w in
+        (* the reader model (proved equivalent to the automaton, linear in the frame size) behind the
+           canonical handshake *)
+        match snd (ws_arrivals c ws_init [hs @ bs]) with
+        | [WConnected; WMsg p] ->
+            (match parse WS p with
+             | Some m -> Printf.sprintf "ok:%d:%d" (int_of_z m.m_code) (List.length p)
+             | None -> Printf.sprintf "BAD-PDU:%d" (List.length p))
+        | [WConnected; WClose _] when (match bs with b0 :: _ -> (int_of_z b0) land 15 = 8 | [] -> false) ->
+            "close"              (* a Close frame; any other frame that makes the peer close is ill-formed *)
+        | evs -> Printf.sprintf "BAD-FRAME:%d" (List.length evs) in
+      if ws = "-" then "-" else String.concat "," (List.map one (String.split_on_char ',' ws))
+  | _ -> failwith "wsdec args"
+
 let wsconsts _ =
   Printf.sprintf "httpbuf=%d maxfs=%d rxbuf=%d" (int_of_z ws_http_buf) (int_of_z ws_max_fs)
     (int_of_z (ws_server_cfg ws_fixed).wsc_rxbuf)
@@ -110,6 +135,6 @@ let wsconsts _ =
 let () =
   register "ws" (ws_gen ws_server_cfg ws_fixed); register "ws0" (ws_gen ws_server_cfg ws_orig);
   register "wsc" (ws_gen ws_client_cfg ws_fixed); register "wsc0" (ws_gen ws_client_cfg ws_orig);
-  register "wsconsts" wsconsts;
+  register "wsconsts" wsconsts; register "wsdec" wsdec;
   register "tcpsize" psize; register "tcpmaxrcv" maxrcv;
   register "tcp" (tcp_gen true); register "tcp0" (tcp_gen false); register "tcpconsts" tcpconsts
